@@ -389,8 +389,9 @@ pub fn run(family: &str, cases_path: &str, events_path: &str, gen_dir: &str, sha
         out.ev(json!({"ev": "endcase", "case": case_no, "compiled": true}));
     }
     // shard manifests
-    let tmpl = std::fs::read_to_string("/verif/harness/gen-template/Cargo.toml.tmpl").unwrap();
-    let support = std::fs::read_to_string("/verif/harness/gen-template/support.rs").unwrap();
+    let home = std::env::var("VERIF_HOME").unwrap_or_else(|_| "/verif".to_string());
+    let tmpl = std::fs::read_to_string(format!("{}/harness/gen-template/Cargo.toml.tmpl", home)).unwrap();
+    let support = std::fs::read_to_string(format!("{}/harness/gen-template/support.rs", home)).unwrap();
     let mut members = vec![];
     for k in 0..shards {
         let sdir = gen.join(format!("s{}", k));
